@@ -48,6 +48,8 @@ func Universe(name string, size string, seed int64) []RawKey {
 			rp(p10 + p10 + "b"), rp(p10 + "zz"), rp("01234567zz"), rp(P21),
 			// same length and same tail as a stored key, differing only inside the optimistic (non-inlined) part
 			rp(p10 + "012345678Zax"), rp(p10 + "0Z23456789ay"),
+			// prefixes reaching exactly 11 / 12 bytes into a long compressed path
+			rp(p10 + "0"), rp(p10 + "01"),
 		}
 		// a second key below the 20-byte path: a long compressed path whose child is again an inner node
 		u = append(u, rk(p10+p10+"bx"))
@@ -64,9 +66,11 @@ func Universe(name string, size string, seed int64) []RawKey {
 			rk(p10 + "ka"), rk(p10 + "kb"), rk(p10 + "m"),
 			rp(""), rp("0"), rp("ay"), rp("b"), rp("xyzw"), rp("xyzw15"), rp("y"), rp(p10 + "k"), rp(p10 + "l"),
 			rpb(0xff),
+			// stored keys that sort after any "all 0xff" sentinel of four bytes
+			rkb(0xff, 0xff, 0xff, 0xff, 0xfe),
 		}
 		if thorough {
-			u = append(u, rk("ay"), rk("xyzw10"), rp("xyzw3"), rp(p10))
+			u = append(u, rk("ay"), rk("xyzw10"), rp("xyzw3"), rp(p10), rkb(0xff, 0xff, 0xff, 0xff, 0xff, 0xff))
 		}
 		return u
 
@@ -129,7 +133,7 @@ func Universe(name string, size string, seed int64) []RawKey {
 		for _, c := range []byte{'a', 'b', 'c', 'd', 'e', 'f'} {
 			u = append(u, rkb(append([]byte(p10+"xy"), c)...))
 		}
-		u = append(u, rp(p10+"xy"), rp(p10+"xZa"), rp(p10+"xyg"))
+		u = append(u, rp(p10+"xy"), rp(p10+"xZa"), rp(p10+"xyg"), rp(p10+"x"), rp(p10), rp(p10+"y"))
 		return u
 
 	case "fan64":
@@ -139,6 +143,14 @@ func Universe(name string, size string, seed int64) []RawKey {
 			u = append(u, rkb(byte(i*4+i%4)))
 		}
 		u[63] = rkb(0xff)
+		return u
+
+	case "fan16":
+		// exactly 16 one-byte keys: the fan node becomes a completely FULL 16-slot node and never leaves that class upward
+		var u []RawKey
+		for _, b := range []byte{0x00, 0x01, 0x10, 0x20, 0x30, 0x40, 0x50, 0x7f, 0x80, 0x90, 0xa0, 0xb0, 0xc0, 0xe0, 0xfe, 0xff} {
+			u = append(u, rkb(b))
+		}
 		return u
 
 	case "fan18":
@@ -210,6 +222,30 @@ func Universe(name string, size string, seed int64) []RawKey {
 			"abcdefgzij1", "Abcdefghijk", "abcdefghij3", "intermationalization",
 			// different strings that collate EQUAL to a stored one (decomposed accent, soft hyphen): absent keys
 			"cafe\u0301", "co\u00adoperate"} {
+			u = append(u, rp(w))
+		}
+		return u
+
+	case "greek16":
+		// 16 Greek letters: one sort-key byte position with exactly 16 children in a collation tree
+		var u []RawKey
+		for c := 0x3b1; c < 0x3b1+17; c++ {
+			if c == 0x3c2 { // final sigma collates with sigma
+				continue
+			}
+			u = append(u, rk(string(rune(c))))
+		}
+		u = append(u, rp("a"), rp(string(rune(0x3c9))))
+		return u
+
+	case "textlong":
+		// collation: strings of 1000+ characters (sort keys beyond the collator buffer's inline array) among short ones
+		A := strings.Repeat("a", 1500)
+		var u []RawKey
+		for _, w := range []string{A, A + "b", A[:1200] + "z", "ab", "b", "a", "zebra", strings.Repeat("xy", 700)} {
+			u = append(u, rk(w))
+		}
+		for _, w := range []string{A + "c", A[:1499], "c", ""} {
 			u = append(u, rp(w))
 		}
 		return u
